@@ -271,6 +271,7 @@ func (s *Server) aofshrink() {
 				log.Fatalf("shrink seek end fatal operation: %v", err)
 			}
 			s.aofsz = int(n)
+			s.aofgen.Add(1)
 			verifPoint("shrink.afterReopen")
 
 			os.Remove(s.opts.AppendFileName + "-bak") // ignore error
